@@ -77,7 +77,7 @@ Proof.
   assert ((t <=? now + v)%Z = true) as -> by (apply Z.leb_le; lia).
   destruct is_ip; cbn [andb].
   - apply existsb_head. apply str_eqb_refl.
-  - apply existsb_head. apply eq_fold_refl.
+  - apply existsb_head. unfold dns_match. rewrite eq_fold_refl. reflexivity.
 Qed.
 
 Lemma cert_lookup_valid hit name is_ip now v :
@@ -271,6 +271,21 @@ Lemma included_intercepted f authority :
 Proof.
   intros Hu Hc Hb Hf. unfold connect_events, should_mitm. rewrite Hu, Hc, Hb, Hf. cbn [andb negb orb].
   split; [reflexivity|]. intros c Hne. destruct (N.eqb c 22) eqn:E; [apply N.eqb_eq in E; contradiction|reflexivity].
+Qed.
+
+(* mitm-domains judges the CONNECT host, never the SNI: a CONNECT to an included host is intercepted and the
+   leaf is minted for whatever name the ClientHello carries, also one the list excludes; a CONNECT to an
+   excluded host is tunnelled whatever SNI the client is going to send (excluded_tunnelled has no SNI at all) *)
+Lemma filter_judges_connect_host f authority sni :
+  mitm_filter_uses_url_hostname = true -> connect_checks_mitm_before_dial = true ->
+  mitm_tls_only_on_handshake_byte = true -> cert_strips_port = true -> tls_for_host_sni_first = true ->
+  f (url_hostname authority) = true -> f sni = false -> sni <> [] -> has_byte COLON sni = false ->
+  connect_events true (Some f) authority 22 = [EvWrite200; EvPeek; EvTlsServer authority] /\
+  name_for sni authority = sni.
+Proof.
+  intros Hu Hc Hb Hs Hn Hf _ Hne Hcol. split.
+  - apply (included_intercepted f authority Hu Hc Hb Hf).
+  - apply (name_for_sni Hs Hn sni authority Hne Hcol).
 Qed.
 
 (* no dial event ever precedes the decision to intercept: an intercepted CONNECT does not touch the target *)
